@@ -212,7 +212,7 @@ PROPS = {
         builds=["harness"],
         legs=lambda tier, seed, scratch: [
             dict(cmd="c12x", name="c12-exhaustive-call-interleavings", cases=_count("c12x-count", tier), stall_s=60),
-            dict(cmd="c12t", name="c12-threaded-stress", cases=_q(tier, 4000, 60000), stall_s=30),
+            dict(cmd="c12t", name="c12-threaded-stress", cases=_q(tier, 3000, 60000), stall_s=30),
             _san().miri_c12_leg(tier, seed, scratch),
         ] + ([_san().tsan_leg("c12-tsan", "c12t", 4000, tier, seed, scratch)] if tier != "quick" else []),
         rule="Leg 1 (exhaustive, seed-independent): every producer history of k writes with sizes from {0,1,3,4096,8192,70000} "
@@ -265,7 +265,7 @@ PROPS = {
         level="fault_enumeration",
         floor=20,
         builds=["harness"],
-        legs=_legs_simple("c14", 160, 3000, stall_s=90),
+        legs=_legs_simple("c14", 160, 3000, stall_s=300),
         rule="Per case one small input (<= 4 chromosomes, <= 12 items each, bigWig on even and bigBed on odd cases; compression, "
         "items_per_slot, block_size, zooms, inmemory, channel_size, one/two pass random) written into a recording sink "
         "that logs every write/seek/flush reaching it, once on the deterministic current-thread runtime and once on the "
